@@ -75,6 +75,7 @@ from pytato.reductions import (
     ReductionOperation,
     SumReductionOperation,
 )
+from pytato.scalar_expr import INT_CLASSES
 from pytato.transform import CachedMapper
 from pytato.utils import are_shape_components_equal, get_einsum_specification
 
@@ -340,13 +341,13 @@ class NumpyCodegenMapper(CachedMapper[str, Never, []]):
                                  _rec_ary_or_constant(hlo.else_)],
                            keywords=[])
         elif isinstance(hlo, BroadcastOp):
-            if not all(isinstance(d, int) for d in expr.shape):
+            if not all(isinstance(d, INT_CLASSES) for d in expr.shape):
                 raise NotImplementedError("Parametric shape in broadcast_to")
 
             rhs = ast.Call(ast.Attribute(ast.Name(self.numpy_backend),
                                          "broadcast_to"),
                            args=[ast.Name(self.rec(hlo.x)),
-                                 ast.Tuple(elts=[_constant(d)
+                                 ast.Tuple(elts=[_constant(int(d))
                                                  for d in expr.shape])],
                            keywords=[])
         elif isinstance(hlo, ReduceOp):
@@ -448,8 +449,8 @@ class NumpyCodegenMapper(CachedMapper[str, Never, []]):
         lhs = self.vng("_pt_tmp")
 
         def _rec_idx(idx: IndexExpr, dim: ShapeComponent) -> ast.expr:
-            if isinstance(idx, int):
-                return _constant(idx)
+            if isinstance(idx, INT_CLASSES):
+                return _constant(int(idx))
             elif isinstance(idx, NormalizedSlice):
                 step = idx.step if idx.step != 1 else None
                 if idx.step > 0:
@@ -534,11 +535,11 @@ class NumpyCodegenMapper(CachedMapper[str, Never, []]):
 
     def map_reshape(self, expr: Reshape) -> str:
         lhs = self.vng("_pt_tmp")
-        if not all(isinstance(d, int) for d in expr.shape):
+        if not all(isinstance(d, INT_CLASSES) for d in expr.shape):
             raise NotImplementedError("Non-integral reshapes.")
         rhs = ast.Call(ast.Attribute(ast.Name(self.numpy_backend), "reshape"),
                         args=[ast.Name(self.rec(expr.array)),
-                              ast.Tuple(elts=[_constant(d)
+                              ast.Tuple(elts=[_constant(int(d))
                                               for d in expr.shape])],
                        keywords=[ast.keyword(arg="order",
                                              value=_constant(expr.order))],
